@@ -186,7 +186,17 @@ func (p *clientStreamProcessorFMP4) processSegment(ctx context.Context, seg *seg
 		leadingTimeConvFMP4(p.client).setLeadingNTPReceived()
 	}
 
+	// make room for the completion signal of every part track:
+	// signals are collected only after all part tracks have been pushed
 	partTrackCount := 0
+	for _, part := range parts {
+		for _, partTrack := range part.Tracks {
+			if _, ok := p.trackProcessors[partTrack.ID]; ok {
+				partTrackCount++
+			}
+		}
+	}
+	p.chPartTrackProcessed = make(chan struct{}, partTrackCount)
 
 	for _, part := range parts {
 		for _, partTrack := range part.Tracks {
@@ -206,8 +216,6 @@ func (p *clientStreamProcessorFMP4) processSegment(ctx context.Context, seg *seg
 			if err != nil {
 				return err
 			}
-
-			partTrackCount++
 		}
 	}
 
